@@ -43,7 +43,7 @@ fn history<const D: usize>(hid: usize, rng: &mut Rng, out: &mut Out, steps: usiz
 
 pub fn run(cfg: &Cfg, rng: &mut Rng, out: &mut Out) {
     let thorough = cfg.tier == "thorough";
-    let nh = if thorough { 40 } else { 6 };
+    let nh = if thorough { 40 } else { 10 };
     for h in 0..nh {
         history::<2>(h, rng, out, if thorough { 24 } else { 12 });
         history::<3>(h, rng, out, if thorough { 20 } else { 10 });
